@@ -38,12 +38,11 @@ def _what(kind, prev, ev, step):
 
 
 def run(ctx):
-    H.design_level(ctx, which=ctx.pick(("_sub", "_iprpc"), ("", "_sub", "_stake", "_iprpc")))
     counts = dict(H.plan(ctx, "C10"))
     # bias: advance-purchase replacement / upgrades inside the payout window (renew), IPRPC months nobody served (iprpc)
     counts["renew"] = int(counts["renew"] * 1.3)
     counts["iprpc"] = int(counts["iprpc"] * 1.7)
-    fams = H.generate(ctx, counts)
+    fams = H.gen_and_design(ctx, counts, ctx.pick(("_sub", "_iprpc"), ("", "_sub", "_stake", "_iprpc")))
     behs = H.flatten(fams)
     H.common_cov(ctx, behs)
     rows = H.hunt(ctx, "Trace_LavaChain_C10.cfg", behs, "hist", _sig, _what)
